@@ -408,11 +408,73 @@ def regressions(ctx, reqs, reals, ocases):
                     ocases.append((toks, opts, True, text))
 
 
+VOID_WITH_CHILDREN = ["<p><event-source src=a>x&lt;y</event-source>z", "<event-source><b>k</b></event-source>",
+                      "<div><event-source>t<i>u</i>v</event-source>w</div>", "<event-source> </event-source>q",
+                      "<table><tr><td><event-source>c<br>d</event-source>", "<event-source><event-source>n</event-source></event-source>"]
+
+
+def tree_level(ctx):
+    """The statement is about the TREE the serializer is given (through a walker): a tree element whose name is on the void
+    list but which has children (the parser does this for `event-source`) cannot be written faithfully, so an error must be
+    reported; nothing of the tree may disappear silently.  Expected content = the abstract tree in document order."""
+    import html5lib
+    from html5lib.serializer import HTMLSerializer
+    from html5lib._tokenizer import HTMLTokenizer
+    from html5lib.constants import tokenTypes
+    from h5 import trees
+
+    def flat(t, out):
+        if t[0] == "elem":
+            out.append(("tag", t[2]))
+            for k in t[4]:
+                flat(k, out)
+        elif t[0] == "text":
+            if t[1]:
+                if out and out[-1][0] == "text":
+                    out[-1] = ("text", out[-1][1] + t[1])
+                else:
+                    out.append(("text", t[1]))
+        elif t[0] in ("doc", "frag"):
+            for k in t[1]:
+                flat(k, out)
+        return out
+    for text in VOID_WITH_CHILDREN:
+        for kind in ("etree", "dom"):
+            for nshtml in (True, False):
+                tree = gen.parse_real(text, tb=kind, full=True, ns=nshtml)
+                abstract = trees.from_dom(tree) if kind == "dom" else trees.from_etree(tree)
+                want = flat(trees.merge_text(abstract), [])
+                ser = HTMLSerializer(omit_optional_tags=False, quote_attr_values="always")
+                try:
+                    out = ser.render(html5lib.getTreeWalker(kind)(tree))
+                except Exception as e:
+                    ctx.fail("serializer-raises:%s" % type(e).__name__, "serializing a parsed tree raised", {"input": text, "walker": kind})
+                    continue
+                got = []
+                for tok in HTMLTokenizer(out):
+                    ty = tok["type"]
+                    if ty == tokenTypes["StartTag"]:
+                        got.append(("tag", tok["name"]))
+                    elif ty in (tokenTypes["Characters"], tokenTypes["SpaceCharacters"]):
+                        if got and got[-1][0] == "text":
+                            got[-1] = ("text", got[-1][1] + tok["data"])
+                        else:
+                            got.append(("text", tok["data"]))
+                ctx.case("void-element-with-children", "%s|%s|%s" % (text, kind, nshtml), nontrivial=True)
+                ctx.count("void-element-with-children")
+                if not ser.errors and got != want:
+                    ctx.fail("tree-content-dropped-without-error", "the serializer reports no error but the tags and text of the tree are not "
+                             "all in its output (void-named element with children)",
+                             {"input": text, "walker": kind, "namespaceHTMLElements": nshtml, "serialized": out,
+                              "tree_content": repr(want)[:500], "re-read": repr(got)[:500]})
+
+
 def run(ctx):
     sys.path.insert(0, lean.VERIF + "/tools")
     reqs, reals = [], []
     ocases = []
     regressions(ctx, reqs, reals, ocases)
+    tree_level(ctx)
     n = ctx.scale(1500, 40000)
     for i in range(n):
         text = gen.soup(ctx.rng)
